@@ -38,11 +38,11 @@ def classify(violations, known):
 
 
 def write_replay(prop, violation, case, seed, tier):
-    d = os.path.join(HERE, "replays", prop)
+    d = os.path.join(os.environ.get("VERIF_REPLAY_DIR") or os.path.join(HERE, "replays"), prop)
     os.makedirs(d, exist_ok=True)
     safe = re.sub(r"[^A-Za-z0-9_.=-]+", "_", violation["sig"])[:120]
     path = os.path.join(d, "%s-seed%d-%s.json" % (safe, seed, tier))
     with open(path, "w") as fp:
         json.dump({"property": prop, "seed": seed, "tier": tier, "case_index": violation.get("case_index"),
                    "violation": violation, "case": case}, fp, indent=1, default=repr)
-    return os.path.relpath(path, HERE)
+    return os.path.relpath(path, HERE) if path.startswith(HERE) else path
